@@ -89,6 +89,16 @@ fn c16_msgs(thorough: bool) -> Vec<M> {
         M::GovVote,
         M::Stargate,
         M::Custom,
+        // recipients that are not normalized addresses (the proxy relays, it does not judge the recipient)
+        M::SendTo(0, vec![(0, Amt(1))]),
+        M::SendTo(1, vec![(0, Amt(1))]),
+        M::SendTo(2, vec![(0, Amt(1))]),
+        // the chain-level handles of the proxy itself and of another contract
+        M::WasmMigrate { own: true },
+        M::WasmMigrate { own: false },
+        M::WasmUpdateAdmin { own: true },
+        M::WasmUpdateAdmin { own: false },
+        M::WasmClearAdmin { own: true },
         // WasmMsg::Execute whose target is the proxy itself (relayed, not dispatched, here)
         M::SelfCall(Inner::Freeze),
         M::SelfCall(Inner::UpdateAdmins(vec![0])),
@@ -128,13 +138,14 @@ fn configs(prop: &str, thorough: bool) -> Vec<(Cfg, Option<usize>)> {
                 // whitelist: every admin list incl. the empty one, frozen and not
                 // the proxy's own address is a caller class too (the sender of a nested relay): an admin only where listed
                 let mut c = Cfg::base("C07/whitelist/admin-sets", "C07", Kind::Whitelist);
-                c.actors = vec!["A1", "A2", "X", "proxy"];
+                // plus senders whose address is a prefix / an extension of A1's, or the bare bech32 prefix
+                c.actors = vec!["A1", "A2", "X", "proxy", "pre:A1", "ext:A1", "hrp"];
                 c.init_admins = vec![0, 1];
                 c.admin_callers = vec![0, 1, 2];
                 // incl. lists that repeat an address: as long as / longer than the list they replace
                 c.admin_lists = vec![vec![0], vec![0, 1], vec![1], vec![], vec![0, 3], vec![0, 0], vec![1, 1], vec![0, 0, 1]];
                 c.freeze_callers = vec![0, 2];
-                c.exec_callers = vec![0, 1, 2, 3];
+                c.exec_callers = vec![0, 1, 2, 3, 4, 5, 6];
                 c.exec_lists = lists.clone();
                 c.exec_funds = vec![vec![], vec![(0, Amt(1))]];
                 c.exec_funded_max_len = 2;
@@ -172,7 +183,7 @@ fn configs(prop: &str, thorough: bool) -> Vec<(Cfg, Option<usize>)> {
                 // one subkey holding both an allowance and permissions: mixed lists can succeed
                 let mut c = Cfg::base("C07/subkeys/one-subkey-with-both", "C07", Kind::Subkeys);
                 c.hmax = H0 + 1;
-                c.actors = vec!["A1", "A2", "S1", "S2", "X", "proxy"];
+                c.actors = vec!["A1", "A2", "S1", "S2", "X", "proxy", "pre:A1", "ext:A1"];
                 c.init_admins = vec![A1];
                 c.admin_callers = vec![A1];
                 c.admin_lists = vec![vec![A1], vec![A1, 5]];
@@ -184,8 +195,9 @@ fn configs(prop: &str, thorough: bool) -> Vec<(Cfg, Option<usize>)> {
                 c.dec_exps = vec![ExpA::Unset, ExpA::Never];
                 c.migrate_probe = true;
                 c.perm_callers = vec![A1, S1];
-                c.perm_targets = vec![(S1, if thorough { all16.clone() } else { vec![0, P_DELEGATE, P_WITHDRAW, 15] })];
-                c.exec_callers = vec![A1, S1, X, 5];
+                // every flag set (incl. the partial combinations) against every staking / distribution kind
+                c.perm_targets = vec![(S1, all16.clone())];
+                c.exec_callers = vec![A1, S1, X, 5, 6, 7];
                 c.exec_lists = lists.clone();
                 c.exec_funds = vec![vec![], vec![(1, Amt(2))]];
                 out.push((c, None));
@@ -269,6 +281,13 @@ fn configs(prop: &str, thorough: bool) -> Vec<(Cfg, Option<usize>)> {
                 c.perm_targets = vec![(S1, vec![0, P_DELEGATE]), (S2, vec![15])];
                 c.exec_callers = vec![A2, S1, S2];
                 c.exec_lists = spend.iter().take(11).cloned().collect();
+                // a permitted staking message before / between bank sends (S1 can hold both grants)
+                c.exec_lists.extend([
+                    vec![M::Delegate, s(&[(0, 1)])],
+                    vec![M::Delegate, s(&[(0, 3)])],
+                    vec![s(&[(0, 1)]), M::Delegate, s(&[(0, 2)])],
+                    vec![M::Delegate, s(&[(0, 1)]), s(&[(0, 2)])],
+                ]);
                 c.grant_funds = vec![GF::None, GF::Same, GF::Other];
                 c.exec_funds = vec![vec![], vec![(0, Amt(2))]];
                 c.exec_funded_max_len = 2;
@@ -445,6 +464,13 @@ fn configs(prop: &str, thorough: bool) -> Vec<(Cfg, Option<usize>)> {
                         // the grant machine is explored from the other initial sets
                         c.targets = vec![];
                         c.perm_targets = vec![];
+                    }
+                    if kind == Kind::Whitelist || *n == "A1/immutable" || n.ends_with("admin-ops-only") {
+                        // callers whose address is a prefix / an extension of A1's, or the bare bech32 prefix
+                        c.actors = vec!["A1", "A2", "S", "X", "pre:A1", "ext:A1", "hrp"];
+                        for l in [&mut c.admin_callers, &mut c.freeze_callers, &mut c.grant_callers, &mut c.perm_callers, &mut c.exec_callers] {
+                            l.extend([4, 5, 6]);
+                        }
                     }
                     out.push((c, None));
                 }
